@@ -131,3 +131,38 @@ CHILDREN = {
 # tokens whose text can contain (or not) a line break: evaluated in both variants
 LINEBREAKABLE = {'Space', 'RawTrimmed'}
 ALWAYS_LINEBREAK = {'Parbreak'}
+
+
+# ---------------------------------------------------------------------------------------------
+# child *sequences* of the code nodes the flow helper prints (transcribed from parser.rs; trivia may stand between any two elements).
+# Slots: E = any code expression, P = any pattern, B = a block (code / content), OP = a binary operator token, UOP = a unary operator token.
+# ---------------------------------------------------------------------------------------------
+SHAPES = {
+    'Binary': [['E', 'OP', 'E'], ['E', 'Not', 'In', 'E']],
+    'Unary': [['UOP', 'E']],
+    'Closure': [['Params', 'Arrow', 'E'], ['Ident', 'Params@(', 'Eq', 'E']],   # a named closure always has parenthesised parameters
+    'DestructAssignment': [['P', 'Eq', 'E']],
+    'Conditional': [['If', 'E', 'B'], ['If', 'E', 'B', 'Else', 'B'], ['If', 'E', 'B', 'Else', 'Conditional']],
+    'Contextual': [['Context', 'E']],
+    'FuncReturn': [['Return'], ['Return', 'E']],
+    'ModuleInclude': [['Include', 'E']],
+    'WhileLoop': [['While', 'E', 'B']],
+    'FieldAccess': [['T', 'Dot', 'Ident']],
+    'ForLoop': [['For', 'P', 'In', 'E', 'B']],
+    'ModuleImport': [['Import', 'E'], ['Import', 'E', 'As', 'Ident'], ['Import', 'E', 'Colon', 'Star'], ['Import', 'E', 'As', 'Ident', 'Colon', 'Star'],
+                     ['Import', 'E', 'Colon', 'ImportItems'], ['Import', 'E', 'As', 'Ident', 'Colon', 'ImportItems']],
+    'ImportItemPath': [['Ident'], ['Ident', 'Dot', 'Ident']],
+    'RenamedImportItem': [['ImportItemPath', 'As', 'Ident']],
+    'Keyed': [['E', 'Colon', 'E']],
+    'LetBinding': [['Let', 'P'], ['Let', 'P', 'Eq', 'E'], ['Let', 'Closure']],
+    'Named': [['Ident', 'Colon', 'E'], ['Ident', 'Colon', 'P']],
+    'SetRule': [['Set', 'E', 'Args'], ['Set', 'E', 'Args', 'If', 'E']],
+    'ShowRule': [['Show', 'Colon', 'E'], ['Show', 'E', 'Colon', 'E']],
+    'Spread': [['Dots'], ['Dots', 'E'], ['Dots', 'P']],
+}
+UN_OPS = ['Plus', 'Minus', 'Not']
+# T: what a field access / call can be applied to (code_primary and the postfix forms; parser.rs code_expr_prec)
+POSTFIX_TARGET = ['Ident', 'None', 'Auto', 'Bool', 'Int', 'Float', 'Numeric', 'Str', 'CodeBlock', 'ContentBlock', 'Parenthesized', 'Array', 'Dict', 'FieldAccess',
+                  'FuncCall', 'Raw', 'Equation', 'Label']
+SLOTS = {'T': POSTFIX_TARGET, 'E': CODE_EXPR, 'P': PATTERN, 'B': ['CodeBlock', 'ContentBlock'], 'OP': [k for k in BIN_OPS if k != 'Not'], 'UOP': UN_OPS}
+SLOT_DEFAULT = {'T': 'Ident', 'E': 'Ident', 'P': 'Ident', 'B': 'CodeBlock', 'OP': 'Plus', 'UOP': 'Minus'}
